@@ -207,7 +207,7 @@ CLAIMED = {
              "length byte: EOT, NAK, nothing delivered (C17_corrupted_block_refused, from C16's corruption theorem); sender and receiver together, a message of any number of "
              "blocks: ENQ/EOT/block/ACK per block, all delivered once in order, the call succeeds (C17_dialog_delivers); the sending side succeeds exactly when every block is "
              "acknowledged (C17_sender, C17_sender_nak_fails) and starts a block only after EOT, whatever else the peer answers to ENQ (C17_block_only_after_eot, C17_block_follows_eot; D50); a changed LENGTH byte is not answered with NAK (C17_length_byte_refuted, known finding C17-length-byte: the receiver waits, "
-             "the library has no timers). The harness also plays a failed attempt followed by the sender's next attempt with the same system bytes (D33).",
+             "the library has no timers). The harness also plays a failed attempt followed by the sender's next attempt with the same system bytes (D33). The step sequences of one send round and one receive round are regenerated from the source on every run (Gen/SecsILine.v) and must be the ones the byte machine is written for (C17_line_rounds_as_translated, a shape obligation).",
         note=NOTE_COMMON + " Partial: contention (both sides sending ENQ), the T1-T4 timers the library does not implement and the serial driver are outside; wait_for is modelled as "
              "accumulation of bytes; what the receiver makes of the bytes left behind a block whose length byte was lowered depends on when it is triggered again (compared with the "
              "specification only).",
